@@ -77,6 +77,57 @@ class ExecMixin(object):
     def st_Expr(self, node, state, frame):
         if isinstance(node.value, ast.Constant):
             return [(state, NORMAL)]
+        c = node.value
+        if isinstance(c, ast.Call) and isinstance(c.func, ast.Attribute) and \
+                c.func.attr == "executemany" and len(c.args) == 2 and not c.keywords:
+            # db.executemany(SQL, SEQ) is `for p in SEQ: db.execute(SQL, p)`
+            key = id(node)
+            cache = self.__dict__.setdefault("_executemany_loops", {})
+            if key not in cache:
+                var = "__executemany_%d" % node.lineno
+                seq = c.args[1]
+                comp = None
+                if isinstance(seq, (ast.ListComp, ast.GeneratorExp, ast.SetComp)):
+                    comp = seq
+                elif isinstance(seq, ast.Name):
+                    # a local assigned once, from a comprehension, and only read
+                    stores = [n for n in ast.walk(frame.func.node)
+                              if isinstance(n, ast.Name) and n.id == seq.id and
+                              isinstance(n.ctx, (ast.Store, ast.Del))]
+                    touched = [n for n in ast.walk(frame.func.node)
+                               if isinstance(n, ast.Attribute) and
+                               isinstance(n.value, ast.Name) and n.value.id == seq.id]
+                    if len(stores) == 1 and not touched:
+                        for n in ast.walk(frame.func.node):
+                            if isinstance(n, ast.Assign) and len(n.targets) == 1 and \
+                                    n.targets[0] is stores[0] and \
+                                    isinstance(n.value, (ast.ListComp, ast.GeneratorExp)):
+                                comp = n.value
+                if comp is not None and len(comp.generators) == 1 and \
+                        not comp.generators[0].is_async:
+                    # [elt for x in it if c]  ->  for x in it: if c: execute(SQL, elt)
+                    gen = comp.generators[0]
+                    call = ast.Call(func=ast.Attribute(value=c.func.value, attr="execute",
+                                                       ctx=ast.Load()),
+                                    args=[c.args[0], comp.elt], keywords=[])
+                    body = [ast.Expr(value=call)]
+                    for cond in reversed(gen.ifs):
+                        body = [ast.If(test=cond, body=body, orelse=[])]
+                    loop = ast.For(target=gen.target, iter=gen.iter, body=body, orelse=[])
+                else:
+                    call = ast.Call(func=ast.Attribute(value=c.func.value, attr="execute",
+                                                       ctx=ast.Load()),
+                                    args=[c.args[0], ast.Name(id=var, ctx=ast.Load())],
+                                    keywords=[])
+                    loop = ast.For(target=ast.Name(id=var, ctx=ast.Store()), iter=seq,
+                                   body=[ast.Expr(value=call)], orelse=[])
+                ast.copy_location(loop, node)
+                for n in ast.walk(loop):
+                    if not hasattr(n, "lineno"):
+                        ast.copy_location(n, node)
+                ast.fix_missing_locations(loop)
+                cache[key] = loop
+            return self.exec_stmt(cache[key], state, frame)
         return self._each(node.value, state, frame,
                           lambda s, v: [(s, NORMAL)])
 
@@ -329,6 +380,14 @@ class ExecMixin(object):
             items = tuple((k, v) for (k, v) in base[1] if k != key) + ((key, value),)
             state.envs[frame.fid][target.value.id] = ("dictlit", items)
             return [(state, NORMAL)]
+        if base[0] in ("dictlit", "loopvar") and isinstance(target.value, ast.Name) and \
+                base[0] == "dictlit":
+            # a local dict filled under computed keys (a mapping used as a work
+            # list / classification): what it holds afterwards is not modelled,
+            # and rules that follow the collection would misjudge it
+            raise AnalysisError("local dict %r is filled under computed keys (%s:%d): "
+                                "not modelled" % (target.value.id, frame.func.module,
+                                                  stmt.lineno))
         # registry / heap dict store
         key = plain(key)
         if value[0] == "obj":
